@@ -138,6 +138,7 @@ func (e *Engine) ParseTemplateAndCache(source []byte, path string, line int) (*T
 		return t, err
 	}
 	// an include tag looks a file up under its cleaned path (filepath.Join)
-	e.cfg.Cache[filepath.Clean(path)] = source
+	// (a copy: the caller may reuse its buffer)
+	e.cfg.Cache[filepath.Clean(path)] = append([]byte(nil), source...)
 	return t, err
 }
